@@ -9,6 +9,18 @@ IVV = "msi::internal::column::Column::is_valid_value"
 CAT = "internal::category::Category"
 
 
+def _excludes(tr, v):
+    """a fact on a discriminant that rules the variant v out"""
+    if isinstance(tr, tuple) and len(tr) == 2:
+        if tr[0] == "==":
+            return tr[1] != v
+        if tr[0] == "!=":
+            return tr[1] == v
+        if tr[0] == "notin":
+            return v in tr[1]
+    return False
+
+
 def info_valid(ctx, rule="INFO-VALID"):
     prog = ctx.prog
     ctx.rule(rule, "Column::is_valid_value decides from every constraint field: Null -> is_nullable; Int -> inside value_range (min and max), storable in the column "
@@ -111,13 +123,19 @@ def info_valid(ctx, rule="INFO-VALID"):
     ctx.check(ok, rule, "enumeration membership", "", "is_valid_value does not test enumeration membership (when an enumeration is set)", f.loc(), fn=f.name, key=rule + "|enum")
     # a column may declare both a category and an enumeration: each is consulted whatever the other says
     for c in en:
-        dep = [e[:60] for (e, tr, g) in S.bool_facts_at(c[0]) if re.search(r"discr\(\*?p1\.category\)", e) and tr == ("==", 0)]
+        dep = [e[:60] for (e, tr, g) in S.bool_facts_at(c[0]) if re.search(r"discr\(\*?p1\.category\)", e) and _excludes(tr, 1)]
         ctx.check(not dep, rule, "enumeration consulted whatever the category", "", "is_valid_value tests the enumeration only when no category is declared (%s): a column with both accepts "
                   "values outside its enumeration" % dep, f.loc(), fn=f.name, key=rule + "|enum-independent")
     for c in cv:
         dep = [e[:60] for (e, tr, g) in S.bool_facts_at(c[0]) if "enum_values" in e and tr is True]
         ctx.check(not dep, rule, "category consulted whatever the enumeration", "", "is_valid_value runs category.validate only when no enumeration is declared (%s)" % dep, f.loc(), fn=f.name,
                   key=rule + "|category-independent")
+    # the length limit binds whatever the category and the enumeration say (an identifier of 40 characters does not fit an identifier column of width 32)
+    for (o, x, y, fa) in bins:
+        if o in ("Le", "Gt", "Lt", "Ge") and "Iterator>::count(core::str::<impl str>::chars(" in x and y == "p1.coltype@Str.0":
+            dep = [k[:60] for k, tr in fa.items() if (re.search(r"discr\(\*?p1\.category\)", k) and _excludes(tr, 1)) or ("enum_values" in k and "is_empty" in k and tr is False)]
+            ctx.check(not dep, rule, "length consulted whatever the category and the enumeration", "", "is_valid_value tests the length only under %s: a column with a category "
+                      "(or an enumeration) accepts strings longer than its width" % dep, f.loc(), fn=f.name, key=rule + "|length-independent")
     # cross-type arms are constant false: Int in Str column, Str in Int column
     ret_locals = {0}
     grew = True
